@@ -61,7 +61,7 @@ def run(r):
                            "covered_by": {s["id"]: s.get("covered_by") for s in exp["sites"]}}
     for s in sites:
         r.cov["map_ranges"]["by_class"][s.get("class")] = r.cov["map_ranges"]["by_class"].get(s.get("class"), 0) + 1
-    n = 4 if r.tier == "quick" else 150
+    n = 4 if r.tier == "quick" else 80
     res, hits = dynamic(r, n)
     if diff and not hits:
         r.violation("facts", dict(diff, note="family determinism found no differing output among %d runs" % len(res["cases"])), False)
